@@ -442,7 +442,7 @@ func selfTestChecker() error {
 	return nil
 }
 
-const ruleC07 = "concurrent: rapid draws a plan (start value biased to 0,1,65534,65535; 2-16 goroutines; 70k-400k operations so that the value wraps 1-6 times; RollOverCount read mix; Gosched pattern; GOMAXPROCS 2/4/16); every operation is recorded with invocation/response stamps from one atomic counter and the complete history is decided by an exact linearizability checker for the counter specification (greedy with exchange argument, self-tested on hand-made illegal histories), plus multiset-of-values check; half of the shards run under the Go race detector. wrapburst: plans that put 2-16 goroutines x 2-24 calls (Next alternating with RollOverCount) right around the 65535->0 wrap, each repeated for 600 (thorough 3000) trials on fresh sequencers, every trial's history decided by the same checker. sequential: fixed sequencers stepped through two wraps from boundary/drawn starts (thorough: all 65536 starts), RollOverCount = zeros issued after every call; NewRandomSequencer first value < 2^15. randomconcurrent: 2-16 goroutines make the very first 1-100 calls each on one fresh random sequencer together (300 trials per plan, 40 under the race detector): values handed out are min..min+N-1 without duplicate or gap, increasing per goroutine, min < 2^15, RollOverCount 0. Non-trivial = history with overlapping operations of different goroutines and >=1 wrap, or a sweep that wraps; distinct = FNV-64 of the plan"
+const ruleC07 = "concurrent: rapid draws a plan (start value biased to 0,1,65534,65535; 2-16 goroutines; 70k-400k operations so that the value wraps 1-6 times; RollOverCount read mix; Gosched pattern; GOMAXPROCS 2/4/16); every operation is recorded with invocation/response stamps from one atomic counter and the complete history is decided by an exact linearizability checker for the counter specification (greedy with exchange argument, self-tested on hand-made illegal histories), plus multiset-of-values check; half of the shards run under the Go race detector. wrapburst: plans that put 2-16 goroutines x 2-24 calls (Next alternating with RollOverCount) right around the 65535->0 wrap, each repeated for 600 (thorough 3000) trials on fresh sequencers, every trial's history decided by the same checker. sequential: fixed sequencers stepped through two wraps from boundary/drawn starts (thorough: all 65536 starts), RollOverCount = zeros issued after every call; NewRandomSequencer first value < 2^15, every thousandth one stepped through two wraps. randomconcurrent: 2-16 goroutines make the very first 1-100 calls each on one fresh random sequencer together (300 trials per plan, 40 under the race detector): values handed out are min..min+N-1 without duplicate or gap, increasing per goroutine, min < 2^15, RollOverCount 0. Non-trivial = history with overlapping operations of different goroutines and >=1 wrap, or a sweep that wraps; distinct = FNV-64 of the plan"
 
 func TestC07(t *testing.T) {
 	r := begin(t, "C07", "exploration", ruleC07)
@@ -538,6 +538,26 @@ var subC07Rand = register("C07", "random", func(r *run, c *RandSeqCase) (CaseInf
 		}
 		if w := s.NextSequenceNumber(); w != v+1 {
 			return ci, failf("random sequencer: %d followed by %d", v, w)
+		}
+		if i%1000 == 0 {
+			// every thousandth one is stepped through two wraps: +1 per call, RollOverCount = zeros handed out
+			prev, zeros := v+1, uint64(0)
+			for k := 0; k < 2*65536+10; k++ {
+				w := s.NextSequenceNumber()
+				if w != prev+1 {
+					return ci, failf("random sequencer started at %d: %d followed by %d (call %d)", v, prev, w, k+3)
+				}
+				if w == 0 {
+					zeros++
+				}
+				if k%4099 == 0 || w <= 1 {
+					if roc := s.RollOverCount(); roc != zeros {
+						return ci, failf("random sequencer started at %d: RollOverCount %d after %d zeros (last value %d)", v, roc, zeros, w)
+					}
+				}
+				prev = w
+			}
+			ci.class("random-sequencer-through-two-wraps")
 		}
 	}
 
